@@ -3,6 +3,7 @@
 package props
 
 import (
+	"strconv"
 	"fmt"
 	"math/rand"
 	"sort"
@@ -192,8 +193,8 @@ func quoteJ5(s string) string {
 	sb.WriteByte('"')
 	for _, c := range s {
 		switch c {
-		case '"', '\\':
-			sb.WriteByte('\\')
+		case '"', '\\', '\n':
+			sb.WriteByte('\\') // a newline inside a string is written as backslash + line break
 		}
 		sb.WriteRune(c)
 	}
@@ -295,10 +296,10 @@ func (t *jT) attrs(prefix string) []string {
 			add("rules.exclusiveMaximum", fmt.Sprint(*r.ExMax))
 		}
 		if r.FMin != nil {
-			add("rules.minimum", fmt.Sprint(*r.FMin))
+			add("rules.minimum", strconv.FormatFloat(*r.FMin, 'f', -1, 64))
 		}
 		if r.FMax != nil {
-			add("rules.maximum", fmt.Sprint(*r.FMax))
+			add("rules.maximum", strconv.FormatFloat(*r.FMax, 'f', -1, 64))
 		}
 		if r.FExMin != nil {
 			add("rules.exclusiveMinimum", fmt.Sprint(*r.FExMin))
